@@ -309,6 +309,29 @@ func TestVerifC18(t *testing.T) {
 				model[name] = content
 				fmt.Fprintf(&sig, "w(%s,%d);", name, len(content))
 			case k < 6: // read
+				if _, stored := model[name]; stored && rnd.Intn(4) == 0 {
+					// an absent object whose name is a directory of stored objects, or
+					// lies below a stored object: ordinary names, never written
+					absent, kind := name+"/"+verifrt.Pick(rnd, []string{"y", "x.json", "2024-01-01.json"}), "below-an-object"
+					if j := strings.LastIndex(name, "/"); j > 0 && rnd.Bool() {
+						absent, kind = name[:j], "directory-of-objects"
+						if k := strings.Index(name, "/"); k != j && rnd.Bool() {
+							absent = name[:k]
+						}
+					}
+					if _, isObj := model[absent]; !isObj {
+						rd, err := bh.Object(absent).NewReader(ctx)
+						res.Hit("read-absent:" + kind)
+						if !errors.Is(err, ErrObjectNotExist) {
+							res.Violate("absent-not-notexist:"+kind, fmt.Sprintf("reading absent %q (stored: %q): reader=%v err=%v", absent, name, rd != nil, err), rp)
+							bad = true
+						}
+						if rd != nil {
+							rd.Close()
+						}
+						break
+					}
+				}
 				rd, err := bh.Object(name).NewReader(ctx)
 				want, ok := model[name]
 				if !ok {
@@ -437,7 +460,7 @@ func TestVerifC18(t *testing.T) {
 		}
 		os.RemoveAll(root)
 	}
-	res.Require("bucket-directory-is-a-symlink", "two-writers-at-once", "overlapping-listings", "list-during-write", "overwrite-shorter", "read-absent", "list", "list-deeply-nested")
+	res.Require("bucket-directory-is-a-symlink", "two-writers-at-once", "overlapping-listings", "list-during-write", "overwrite-shorter", "read-absent", "read-absent:below-an-object", "read-absent:directory-of-objects", "list", "list-deeply-nested")
 	if err := res.Write(); err != nil {
 		t.Fatal(err)
 	}
